@@ -1069,8 +1069,3 @@ func (o *orch) writeEvidence(a *agg, c counts, nviol int) {
 		fmt.Fprintln(os.Stderr, "orch: cannot write evidence:", err)
 	}
 }
-
-func cmdSelftest(args []string) {
-	_ = simrt.NumSites
-	fmt.Println("selftest: see check script")
-}
